@@ -180,6 +180,18 @@ def run(ctx, R, tier):
                 "a stream can be dropped by housekeeping without its lifetime/linger period having passed (or outside the lock)")
 
     # ---------------------------------------------------------------- R6
+    dob = p.cls("Pyro5.server.DaemonObject")
+    used = {}
+    for fn in (ctx.fn("Pyro5.client._StreamResultIterator.__next__"), ctx.fn("Pyro5.client._StreamResultIterator.close")):
+        for c, _ in ctx.cg.calls_of(fn):
+            if isinstance(c.func, ast.Attribute) and c.func.attr == "_pyroInvoke" and c.args and isinstance(c.args[0], ast.Constant):
+                tgt = [k.value for k in c.keywords if k.arg == "objectId"]
+                used[c.args[0].value] = (fn, c, tgt and ctx.resolves_to_object(tgt[0], fn, "Pyro5.core.DAEMON_NAME"),
+                                         len(c.args) > 1 and unparse(c.args[1]) == "[self.streamId]")
+    exposed_cls = any((dotted(d) or "") == "expose" for d in dob.node.decorator_list)
+    ok = set(used) == {"get_next_stream_item", "close_stream"} and all(m in dob.methods for m in used) and exposed_cls and all(v[2] and v[3] for v in used.values())
+    R.check(ok, "C10-R6", "client|stream-method-names", "the client fetches/closes streams through DaemonObject methods that exist, on the daemon object, with its own stream id", dob.module.relpath,
+            "client uses %s; DaemonObject defines %s" % (sorted(used), sorted(m for m in dob.methods if "stream" in m)))
     nx = ctx.fn("Pyro5.client._StreamResultIterator.__next__")
     hs = [h for t in walk_no_nested(nx.node) if isinstance(t, ast.Try) for h in t.handlers]
     ok = False
